@@ -7,7 +7,7 @@ from __future__ import annotations
 import ast
 import itertools
 
-from ..core.terms import (c, evaluate, fn_name, kw, make_inliner, n, pretty, subterms)
+from ..core.terms import (cmp_, not_, pc, phi_, c, evaluate, fn_name, kw, make_inliner, n, pretty, subterms)
 from .common import LIB_FACTS, cond_parts, is_call, kernel_classes, method, short, thunk_value
 
 SELF = n("self")
@@ -145,7 +145,7 @@ def check(ctx):
             it = lp["iter"]
             name_t = ("iter", it)
             ec = ("a", ("s", it, name_t), "error_code")
-            mask = ("call", ("g", "numpy.any"), (("cmp", "!=", ec, c(0)),), (("axis", c(0)),))
+            mask = ("call", ("g", "numpy.any"), (cmp_("!=", ec, c(0)),), (("axis", c(0)),))
             want_tr = ("s", ("call", ("g", "numpy.where"), (mask,), ()), c(0))
             full = ("slice", c(None), c(None), c(None))
             ok = (ident == name_t and transition == want_tr and codes_t is not None
